@@ -701,7 +701,7 @@ where R: Sc, for<'x> &'x R: RingOps<R> {
             0 | 1 | 2 => {
                 let v = 3 + r.below(if thorough { 5 } else { 4 }) as usize;
                 let kk = k.min(v - 1).min(if thorough { 6 } else { 4 });
-                ("simplicial", gen_simplicial::<R>(r, v, kk, 1 + r.below(4) as usize))
+                { let nf = 1 + r.below(4) as usize; ("simplicial", gen_simplicial::<R>(r, v, kk, nf)) }
             }
             3 => ("planted-dense", gen_planted::<R>(r, k, if thorough { 3 } else { 2 }, 2, true)),
             _ => ("planted", gen_planted::<R>(r, k, if thorough { 5 } else { 3 }, if thorough { 3 } else { 2 }, false)),
